@@ -24,6 +24,7 @@
 import Upnp.Lemmas.C06Main
 import Upnp.Lemmas.C06Url
 import Upnp.Gen.C06Types
+import Upnp.Model.C06Anc
 namespace Upnp.C06
 open Upnp.Gen
 
@@ -32,18 +33,19 @@ open Upnp.Gen
 /-- the entity table `_format_request_args` hands to `escape` sends CR as a character reference -/
 theorem escape_table_pin : C06Types.escapeExtra = crTable := by decide
 
-/-- every row of `STATE_VARIABLE_TYPE_MAPPING` except `time.tz` has an `out` coercer whose result
-    its `in` coercer decodes (integers through `str(int(v))`, booleans `1`/`0` with `1` accepted and
-    `0` not, dates/times by the matching `isoformat`).
-    `_partial`: `time.tz` is excluded — its `out` coercer `t.isoformat("T", "seconds")` raises
-    `TypeError` on every `datetime.time` (defect F08a of C08; known finding `F08a-C06`). -/
-theorem type_table_sound_partial :
-    ∀ row ∈ C06Types.table, row.name ≠ "time.tz".toList → rowSound row = true := by decide
+/-- every row of `STATE_VARIABLE_TYPE_MAPPING` has an `out` coercer whose result its `in` coercer
+    decodes (integers through `str(int(v))`, booleans `1`/`0` with `1` accepted and `0` not,
+    dates/times by the `isoformat` call that exists for their class — `time.tz` included since the
+    repair of F08a). -/
+theorem type_table_sound : ∀ row ∈ C06Types.table, rowSound row = true := by decide
+
+/-- `create_request` writes the service type into `xmlns:u=` through `quoteattr` -/
+theorem ns_attr_pin : C06Types.nsAttrQuoted = true := by decide
 
 /-- the refusals are the library's error: both classes descend from `UpnpError` -/
 theorem exc_hierarchy_pin :
-    ((C06Types.excAncestors.lookup "UpnpError").getD []).contains "UpnpError" = true
-    ∧ ((C06Types.excAncestors.lookup "UpnpValueError").getD []).contains "UpnpError" = true := by decide
+    (genAnc "UpnpError").contains "UpnpError" = true
+    ∧ (genAnc "UpnpValueError").contains "UpnpError" = true := by decide
 
 /-! ### text level -/
 
@@ -55,12 +57,20 @@ theorem int_roundtrip (n : Int) : pyInt? (decOfInt n) = some n := pyInt_decOfInt
 theorem escape_lossless (s : Str) : xmlDecodeText (escape C06Types.escapeExtra s) = some s := by
   rw [escape_table_pin]; exact decode_escape s
 
-/-- the envelope the client emits reads back as exactly what it was built from -/
+/-- the envelope the client emits reads back as exactly what it was built from, for EVERY service
+    type (any characters: it is quoted by `quoteattr`, whose result `xmlDecodeAttr` inverts) and
+    every action / argument name in the XML-name domain -/
 theorem body_reads_back (name st : Str) (args : List (Str × Str))
-    (hn : ' ' ∉ name) (hs : '"' ∉ st) (ha : ∀ p ∈ args, nameOk p.1 = true) :
-    readEnvelope (renderBody C06Types.escapeExtra name st args)
+    (hn : xmlNameOk name = true) (ha : ∀ p ∈ args, xmlNameOk p.1 = true) :
+    readEnvelope (renderBody C06Types.escapeExtra C06Types.nsAttrQuoted name st args)
       = some { action := name, ns := st, args := args } := by
-  rw [escape_table_pin]; exact readEnvelope_render name st args hn hs ha
+  rw [escape_table_pin, ns_attr_pin]
+  exact readEnvelope_render name st args (xmlNameOk_nameOk name hn).2 (fun p hp => (xmlNameOk_nameOk p.1 (ha p hp)).1)
+
+/-- `quoteattr` is lossless: the receiver's attribute-value decoding returns the service type -/
+theorem ns_attr_lossless (st : Str) :
+    ∃ (q : Char) (v : Str), (q = '"' ∨ q = '\'') ∧ quoteattr st = q :: v ++ [q] ∧ q ∉ v
+      ∧ xmlDecodeAttr v = some st := quoteattr_spec st
 
 /-- every value the schema accepts is rendered to a text that the declared `in` coercion decodes
     back to it (Python `==`; `bool ⊑ int`), and that text survives escaping -/
@@ -104,10 +114,10 @@ theorem schema_is_accepts (O : Oracles) (strict : Bool) (d : VarDecl) (v : PyVal
 
 /-- an assignment that omits an in-argument or violates type / range / allowed list is refused
     with `UpnpError` / `UpnpValueError`, and nothing is sent -/
-theorem refusal_before_send (O : Oracles) (extra : List (Char × Str)) (a : ActionDecl) (kw : Kwargs)
+theorem refusal_before_send (O : Oracles) (extra : List (Char × Str)) (nsq : Bool) (a : ActionDecl) (kw : Kwargs)
     (hurl : (urljoin a.deviceUrl a.controlUrl).isSome = true)
     (h : allAccepted O a.strict a.inArgs kw = some false) :
-    asyncCallSend O extra a kw = ([], some .upnpError) ∨ asyncCallSend O extra a kw = ([], some .upnpValueError) := by
+    asyncCallSend O extra nsq a kw = ([], some .upnpError) ∨ asyncCallSend O extra nsq a kw = ([], some .upnpValueError) := by
   unfold asyncCallSend createRequest
   cases hu : urljoin a.deviceUrl a.controlUrl with
   | none => simp [hu] at hurl
@@ -128,7 +138,7 @@ theorem c06_model_ok (O : Oracles) (anc : String → List String) (a : ActionDec
     (hanc1 : (anc "UpnpError").contains "UpnpError" = true)
     (hanc2 : (anc "UpnpValueError").contains "UpnpError" = true)
     (H : Hyp O a kw) :
-    ok O a kw (modelObs anc (asyncCallSend O crTable a kw)) = true := by
+    ok O a kw (modelObs anc (asyncCallSend O crTable true a kw)) = true := by
   unfold ok
   cases hacc : allAccepted O a.strict a.inArgs kw with
   | none => rfl
@@ -140,7 +150,7 @@ theorem c06_model_ok (O : Oracles) (anc : String → List String) (a : ActionDec
       | false =>
         have h1 : "UpnpError" ∈ anc "UpnpError" := by simpa using hanc1
         have h2 : "UpnpError" ∈ anc "UpnpValueError" := by simpa using hanc2
-        rcases refusal_before_send O crTable a kw H.url hacc with h | h <;>
+        rcases refusal_before_send O crTable true a kw H.url hacc with h | h <;>
           simp [h, modelObs, excInfo, ExcInfo.isLibraryError, Exc.tok, h1, h2]
       | true =>
         obtain ⟨args, hc, hn, hok⟩ := coerceArgs_ok O a.strict kw a.inArgs hacc H.rows H.oracle
@@ -150,16 +160,16 @@ theorem c06_model_ok (O : Oracles) (anc : String → List String) (a : ActionDec
           have : p.1 ∈ args.map (·.1) := List.mem_map.mpr ⟨p, hp, rfl⟩
           rw [hn] at this
           obtain ⟨d, hd, hdn⟩ := List.mem_map.mp this
-          rw [← hdn]; exact H.names d hd
-        have hsend : asyncCallSend O crTable a kw =
+          rw [← hdn]; exact (xmlNameOk_nameOk _ (H.names d hd)).1
+        have hsend : asyncCallSend O crTable true a kw =
             ([{ method := "POST".toList, url := u,
                 headers := [("SOAPAction".toList, '"' :: a.serviceType ++ '#' :: a.name ++ ['"']),
                             ("Host".toList, netloc u),
                             ("Content-Type".toList, "text/xml; charset=\"utf-8\"".toList)],
-                body := renderBody crTable a.name a.serviceType args }], none) := by
+                body := renderBody crTable true a.name a.serviceType args }], none) := by
           simp [asyncCallSend, createRequest, hu, hv, hc]
         rw [hsend]
-        simp only [modelObs, readEnvelope_render a.name a.serviceType args H.action H.serviceType hnames,
+        simp only [modelObs, readEnvelope_render a.name a.serviceType args (xmlNameOk_nameOk _ H.action).2 hnames,
           Option.map_some, header_soapaction, header_host, header_ctype]
         have hct : contentTypeOk "text/xml; charset=\"utf-8\"".toList = true := by decide
         rw [hct, envelopeOk_tree O a kw args hok]
@@ -167,10 +177,66 @@ theorem c06_model_ok (O : Oracles) (anc : String → List String) (a : ActionDec
 
 /-- the same, instantiated with the tables generated from the source -/
 theorem c06_model_ok_gen (O : Oracles) (a : ActionDecl) (kw : Kwargs) (H : Hyp O a kw) :
-    ok O a kw (modelObs (fun c => (C06Types.excAncestors.lookup c).getD [])
-      (asyncCallSend O C06Types.escapeExtra a kw)) = true := by
-  rw [escape_table_pin]
+    ok O a kw (modelObs genAnc
+      (asyncCallSend O C06Types.escapeExtra C06Types.nsAttrQuoted a kw)) = true := by
+  rw [escape_table_pin, ns_attr_pin]
   exact c06_model_ok O _ a kw exc_hierarchy_pin.1 exc_hierarchy_pin.2 H
+
+/-! ### histories -/
+
+/-- what can happen to one long-lived device / service / action object between and during calls -/
+inductive HOp
+  | call (kw : Kwargs)            -- `action.async_call(**kw)`
+  | reinit (deviceUrl : Str)      -- `UpnpDevice.reinit(new_device)`: the description URL is replaced
+
+/-- The model of a history.  Request construction (`asyncCallSend`) is a **pure function of the
+    current declaration — device description URL, service control URL, action, declared arguments —
+    and the assignment**: it has no other input, so nothing of an earlier call (accepted or refused)
+    can influence a later one, and a re-initialisation acts only through the declaration's
+    `deviceUrl`.  Each entry: the declaration in force, the assignment, the observation. -/
+def runHistory (O : Oracles) (anc : String → List String) (a : ActionDecl) :
+    List HOp → List (ActionDecl × Kwargs × Obs)
+  | [] => []
+  | .call kw :: r => (a, kw, modelObs anc (asyncCallSend O crTable true a kw)) :: runHistory O anc a r
+  | .reinit u :: r => runHistory O anc { a with deviceUrl := u } r
+
+/-- **Every call of every history** satisfies the judge with the declaration in force at that call:
+    an invalid assignment is refused before anything is sent *every time* it is tried, a valid one
+    after any number of refusals is sent in full, and after a re-initialisation the request goes to
+    the control URL resolved against the NEW description URL with the matching `Host`. -/
+theorem c06_history_ok (O : Oracles) (anc : String → List String)
+    (hanc1 : (anc "UpnpError").contains "UpnpError" = true)
+    (hanc2 : (anc "UpnpValueError").contains "UpnpError" = true) (ops : List HOp) :
+    ∀ (a : ActionDecl), ∀ e ∈ runHistory O anc a ops, Hyp O e.1 e.2.1 → ok O e.1 e.2.1 e.2.2 = true := by
+  induction ops with
+  | nil => intro a e he; simp [runHistory] at he
+  | cons op r ih =>
+    intro a e he
+    cases op with
+    | call kw =>
+      simp only [runHistory, List.mem_cons] at he
+      rcases he with rfl | he
+      · intro H; exact c06_model_ok O anc a kw hanc1 hanc2 H
+      · exact ih a e he
+    | reinit u => exact ih _ e he
+
+/-- repeating an assignment gives the same observation, whatever happened in between (no re-init) -/
+theorem repeat_same (O : Oracles) (anc : String → List String) (a : ActionDecl) (kw : Kwargs)
+    (between : List Kwargs) :
+    (runHistory O anc a (.call kw :: between.map HOp.call ++ [.call kw])).getLast?
+      = (runHistory O anc a [.call kw]).getLast? := by
+  have h : ∀ (l : List Kwargs) (x : ActionDecl × Kwargs × Obs),
+      (runHistory O anc a (l.map HOp.call ++ [.call kw])).getLast? = some (a, kw, modelObs anc (asyncCallSend O crTable true a kw)) := by
+    intro l x
+    induction l with
+    | nil => simp [runHistory]
+    | cons k t ih =>
+      simp only [List.map_cons, List.cons_append, runHistory]
+      rw [List.getLast?_cons_of_ne_nil]
+      · exact ih
+      · cases t <;> simp [runHistory]
+  have := h (kw :: between) (a, kw, modelObs anc (asyncCallSend O crTable true a kw))
+  simpa [runHistory] using this
 
 /-! ### non-vacuity -/
 
@@ -182,7 +248,7 @@ private def rowOf (n : String) : TypeRow :=
     Mute: boolean) -> Old: ui2 -/
 private def exAction : ActionDecl :=
   { name := "SetVolume".toList,
-    serviceType := "urn:schemas-upnp-org:service:RenderingControl:1".toList,
+    serviceType := "urn:acme&co:service:R\"C:1".toList,
     deviceUrl := "http://192.168.1.10:8080/desc/root.xml".toList,
     controlUrl := "/ctl/rc".toList,
     args := [⟨"InstanceID".toList, true, { row := rowOf "ui4" }⟩,
@@ -204,17 +270,17 @@ private def exKw : Kwargs :=
 example :
     Hyp exO exAction exKw
     ∧ allAccepted exO true exAction.inArgs exKw = some true
-    ∧ (asyncCallSend exO C06Types.escapeExtra exAction exKw).1.map (fun r => (r.url, r.body)) =
+    ∧ (asyncCallSend exO C06Types.escapeExtra C06Types.nsAttrQuoted exAction exKw).1.map (fun r => (r.url, r.body)) =
         [("http://192.168.1.10:8080/ctl/rc".toList,
           ("<?xml version=\"1.0\"?><s:Envelope s:encodingStyle=\"http://schemas.xmlsoap.org/soap/encoding/\"" ++
            " xmlns:s=\"http://schemas.xmlsoap.org/soap/envelope/\"><s:Body>" ++
-           "<u:SetVolume xmlns:u=\"urn:schemas-upnp-org:service:RenderingControl:1\">" ++
+           "<u:SetVolume xmlns:u='urn:acme&amp;co:service:R\"C:1'>" ++
            "<InstanceID>1</InstanceID>\n<Channel>a&lt;b&#13;&amp;</Channel>\n<DesiredVolume>100</DesiredVolume>\n<Mute>0</Mute>" ++
            "</u:SetVolume></s:Body></s:Envelope>").toList)]
-    ∧ asyncCallSend exO C06Types.escapeExtra exAction (("DesiredVolume".toList, .int 101) :: exKw)
+    ∧ asyncCallSend exO C06Types.escapeExtra C06Types.nsAttrQuoted exAction (("DesiredVolume".toList, .int 101) :: exKw)
         = ([], some .upnpValueError)
-    ∧ asyncCallSend exO C06Types.escapeExtra exAction (exKw.drop 1) = ([], some .upnpError) := by
-  refine ⟨⟨by decide +kernel, by decide +kernel, by decide +kernel, by decide +kernel, by decide +kernel, ?_⟩, by decide +kernel, by decide +kernel, by rfl, by rfl⟩
+    ∧ asyncCallSend exO C06Types.escapeExtra C06Types.nsAttrQuoted exAction (exKw.drop 1) = ([], some .upnpError) := by
+  refine ⟨⟨by decide +kernel, by decide +kernel, by decide +kernel, by decide +kernel, ?_⟩, by decide +kernel, by decide +kernel, by rfl, by rfl⟩
   intro d hd v hv
   have hnames : exAction.inArgs.map (·.name) =
       ["InstanceID".toList, "Channel".toList, "DesiredVolume".toList, "Mute".toList] := by decide +kernel
